@@ -3,8 +3,8 @@
 (*                                                                             *)
 (* One case = one decision  is_allowed(host, headers)  of a TrafficFilter       *)
 (* configured with an allow list and a block list:                              *)
-(*   [allow, block : sequences of list entries,                                 *)
-(*    host   : the destination string,                                          *)
+(*   [allow, block : sequences of list items [raw, low, canon] (see Denoted),     *)
+(*    host   : the destination string, hlow / hcanon : lower case / canonical,   *)
 (*    kind   : "name" | "ip4" | "ip6" | "junk",                                 *)
 (*    ip     : <<a,b,c,d>> the IPv4 address (the literal, or what the name      *)
 (*             resolves to), <<>> when there is none,                           *)
@@ -28,6 +28,14 @@ EXTENDS Integers, Sequences, FiniteSets
 
 SeqSet(s) == {s[i] : i \in DOMAIN s}
 
+\* A list is the sequence of its comma-separated items as the operator wrote them; an item is [raw, canon, ...] with
+\* canon = the destination the item denotes: the item without surrounding blanks, host names in lower case (DNS names
+\* are case-insensitive), "" for an empty / blank item (trailing comma).  A destination is in a list when an item denotes
+\* it - "excluded by the lists" is about destinations, not about how the list was typed.
+Denoted(list) == {list[i].canon : i \in DOMAIN list} \ {""}
+\* the list variable is set to a non-empty value
+Given(list) == Len(list) > 1 \/ (Len(list) = 1 /\ list[1].raw # "")
+
 \* loopback 127/8, private 10/8, 172.16/12, 192.168/16
 Internal4(o) ==
     \/ o[1] = 10
@@ -41,9 +49,9 @@ Internal(c) ==
 
 Unresolvable(c) == c.rsv \in {"fail", "unicode"}
 
-AllowGiven(c) == c.allow # <<>>
-Excluded(c) == IF AllowGiven(c) THEN c.host \notin SeqSet(c.allow) ELSE c.host \in SeqSet(c.block)
-Override(c) == c.header = "true" \/ (AllowGiven(c) /\ c.host \in SeqSet(c.allow))
+AllowGiven(c) == Given(c.allow)
+Excluded(c) == IF AllowGiven(c) THEN c.hcanon \notin Denoted(c.allow) ELSE c.hcanon \in Denoted(c.block)
+Override(c) == c.header = "true" \/ (AllowGiven(c) /\ c.hcanon \in Denoted(c.allow))
 
 MustNotRoute(c) ==
     /\ c.header # "true"
